@@ -131,7 +131,7 @@ theorem applyAllF_append (a b : List Cmd) (e : Env) : applyAllF (a ++ b) e = app
 
 /-- commands whose evaluation `shEvalF` covers, in a shell whose environment is `env` and whose functions are `fs` -/
 def Cmd.GoodAt (env fs : Env) : Cmd → Prop
-  | .setVar k v => isIdent k = true ∧ InAlphabet v
+  | .setVar k v => isIdent k = true ∧ Writable v
   | .unsetVar k => isIdent k = true ∧ (env.has k = true ∨ fs.has k = false)
   | .aliasDef k v => fnNameOk k = true ∧ SimpleBody v
   | .aliasDel k => isIdent k = true
@@ -239,7 +239,7 @@ theorem feed_export_prefix (env : Env) (k : Str) (hk : isIdent k = true) :
   simp
 
 theorem feedF_setVar (env fs : Env) (out : List Str) (stt : Nat) (k v : Str) (hk : isIdent k = true)
-    (hv : InAlphabet v) :
+    (hv : Writable v) :
     ∃ qv, feedF (cleanF env fs out stt) (Cmd.text (.setVar k v)) =
       some (midF env fs out stt qv [sExport] (k ++ 61 :: v)) := by
   have hks := ident_safe hk
@@ -252,7 +252,7 @@ theorem feedF_setVar (env fs : Env) (out : List Str) (stt : Nat) (k v : Str) (hk
     · exact safe_plain (hks c hc)
     · subst hc; decide
   simp only [Cmd.text]
-  rcases emitVal_alpha hv with h | ⟨h, hsafe⟩
+  rcases emitVal_writable hv with ⟨h, hnq⟩ | ⟨h, hsafe⟩
   · refine ⟨true, ?_⟩
     rw [h, feedF_append, feedF_plain _ (cleanF env fs out stt) rfl rfl rfl hpre]
     simp only [cleanF, feed_export_prefix env k hk, Option.map_some, Option.bind_some]
@@ -264,7 +264,7 @@ theorem feedF_setVar (env fs : Env) (out : List Str) (stt : Nat) (k v : Str) (hk
       simp [stepF, stepChar]
     rw [this]
     simp only [Option.bind_some]
-    rw [feedF_quoted v _ (k ++ [61]) rfl rfl rfl (alpha_no_sq hv)]
+    rw [feedF_quoted v _ (k ++ [61]) rfl rfl rfl hnq]
     simp [midF, mid]
   · refine ⟨false, ?_⟩
     have hall : ∀ c ∈ sExport ++ [32] ++ k ++ [61] ++ emitVal v, Plain c := by
@@ -456,7 +456,7 @@ theorem shEvalF_join (cmds : List Cmd) (nl : Bool) : ∀ (env fs : Env) (out : L
 
 /-- goodness that does not depend on the shell's state -/
 def Cmd.GoodStatic : Cmd → Prop
-  | .setVar k v => isIdent k = true ∧ InAlphabet v
+  | .setVar k v => isIdent k = true ∧ Writable v
   | .unsetVar _ => False
   | .aliasDef k v => fnNameOk k = true ∧ SimpleBody v
   | .aliasDel k => isIdent k = true
@@ -546,7 +546,7 @@ finds the variable NAME still there (the caller's environment is a dictionary) -
 theorem goodSeq_vars (old : OldEnv) (base new fs : Env) (ht : Tracks old base)
     (hidb : ∀ p ∈ base, isIdent p.1 = true) (hbnd : (base.map (·.1)).Nodup)
     (hidn : ∀ p ∈ new, isIdent p.1 = true) (hnd : (new.map (·.1)).Nodup)
-    (halpha : ∀ p ∈ new, old.lookup p.1 ≠ some (some p.2) → InAlphabet p.2) :
+    (halpha : ∀ p ∈ new, old.lookup p.1 ≠ some (some p.2) → Writable p.2) :
     GoodSeq base fs (emitVarsOn {} old new) := by
   have hgood := emitVars_good old base new ht hidb hidn halpha
   rw [emitVarsOn, goodSeq_append]
@@ -867,7 +867,38 @@ theorem alpha_dqOk {v : Str} (h : InAlphabet v) : ∀ c ∈ v, DqOk c := by
   · simp only [isShMeta, Bool.or_eq_true, beq_iff_eq] at h1
     unfold DqOk; omega
 
-theorem good_text_echoable (c : Cmd) (h : c.Good) : Echoable c.text := by
+/-- commands whose text `echo "…"` prints as it is: as `Good`, with the value over the alphabet (inside double quotes
+`$`, backquote, backslash and `"` are not literal) -/
+def Cmd.GoodA : Cmd → Prop
+  | .setVar k v => isIdent k = true ∧ InAlphabet v
+  | .unsetVar k => isIdent k = true
+  | .aliasDel k => isIdent k = true
+  | _ => False
+
+theorem emitVarsOn_goodA (o : Opts) (old : OldEnv) (base new : Env) (ht : Tracks old base)
+    (hidb : ∀ p ∈ base, isIdent p.1 = true) (hidn : ∀ p ∈ new, isIdent p.1 = true)
+    (halpha : ∀ p ∈ new, old.lookup p.1 ≠ some (some p.2) → InAlphabet p.2) :
+    ∀ c ∈ emitVarsOn o old new, c.GoodA := by
+  intro c hc
+  simp only [emitVarsOn, List.mem_append, List.mem_filterMap] at hc
+  rcases hc with ⟨p, hp, hpc⟩ | ⟨p, hp, hpc⟩
+  · simp only [setCmd?] at hpc
+    split at hpc; · cases hpc
+    rename_i hl
+    split at hpc; · cases hpc
+    cases hpc
+    exact ⟨hidn p hp, halpha p hp (by simpa using hl)⟩
+  · simp only [unsetCmd?] at hpc
+    split at hpc; · cases hpc
+    split at hpc; · cases hpc
+    split at hpc; · cases hpc
+    cases hpc
+    have : p.1 ∈ base.map (·.1) := by rw [← ht.1]; exact List.mem_map.mpr ⟨p, hp, rfl⟩
+    obtain ⟨q, hq, hqk⟩ := List.mem_map.mp this
+    show isIdent p.1 = true
+    rw [← hqk]; exact hidb q hq
+
+theorem good_text_echoable (c : Cmd) (h : c.GoodA) : Echoable c.text := by
   cases c with
   | setVar k v =>
     have hks := ident_safe h.1
@@ -898,7 +929,7 @@ theorem good_text_echoable (c : Cmd) (h : c.Good) : Echoable c.text := by
     · subst hd; decide
     · have f := safe_facts (hks d hd); have g := safe_facts2 (hks d hd)
       exact ⟨f.2.2.2.2.2.1, g.1, g.2.2.2.2.2.1, g.2.2.2.2.2.2⟩
-  | aliasDef k v => exact absurd h (by simp [Cmd.Good])
+  | aliasDef k v => exact absurd h (by simp [Cmd.GoodA])
   | aliasDel k =>
     have hks := ident_safe h
     refine ⟨?_, by simp [Cmd.text, sUnset]⟩
